@@ -63,3 +63,5 @@ func TestRun(t *testing.T) {
 	m(t, envInt("VERIF_SEED", 1), int(envInt("VERIF_N", 100)), out)
 	out.w.Flush()
 }
+
+func newBuf(f *os.File) *bufio.Writer { return bufio.NewWriterSize(f, 1<<16) }
